@@ -197,10 +197,13 @@ func (r *Runner) lookupVar(name string) expand.Variable {
 		} else {
 			vr.Str = "gosh"
 		}
-	case "1", "2", "3", "4", "5", "6", "7", "8", "9":
-		if i := int(name[0] - '1'); i < len(r.Params) {
-			vr.Kind = expand.String
-			vr.Str = r.Params[i]
+	default:
+		// Positional parameters, including ones past the ninth like ${11}.
+		if name[0] >= '0' && name[0] <= '9' {
+			if n, err := strconv.Atoi(name); err == nil && n >= 1 && n <= len(r.Params) {
+				vr.Kind = expand.String
+				vr.Str = r.Params[n-1]
+			}
 		}
 	}
 	if vr.Kind != expand.Unknown {
